@@ -21,15 +21,28 @@ known = json.load(open(os.path.join(ROOT, "known_findings.json")))["findings"]
 known_ops = sorted({m.group(1) for k in known if k["property"] == "C17" and k["status"] == "known" for m in [re.match(r"unsafe_after_panic@(.*):\w+$", k["signature"])] if m})
 
 
-def run_phase(extra, base_skip):
+def load_report(path):
+    """The report of a process in which a known finding caused memory corruption can itself be
+    garbage (invalid UTF-8 / JSON): None in that case."""
+    try:
+        with open(path, "rb") as f:
+            return json.loads(f.read().decode("utf-8", "replace"))
+    except Exception:
+        return None
+
+
+def run_phase(extra, base_skip, label):
     skip, deaths, rep = list(base_skip), [], None
     for attempt in range(24):
+        if os.path.exists(out):
+            os.remove(out)
         cmd = argv + ["--out", out, "--skip", ";".join(skip)] + extra
         p = subprocess.run(cmd, stdout=subprocess.PIPE, stderr=subprocess.PIPE)
         err = p.stderr.decode("utf-8", "replace")
         if p.returncode == 0:
-            rep = json.load(open(out))
-            break
+            rep = load_report(out)
+            if rep is not None:
+                break
         cases = [l for l in err.splitlines() if l.startswith("CASE ")]
         if not cases:
             sys.stderr.write(err[-3000:])
@@ -43,7 +56,8 @@ def run_phase(extra, base_skip):
         fm = re.findall(r"FUSE cb=(\w+)", after) or re.findall(r"FUSE cb=(\w+)", err)
         cb = fm[-1] if fm else "none"
         tail = [l for l in err.splitlines() if not l.startswith(("CASE ", "FUSE "))][-8:]
-        deaths.append(dict(prop="C17", sig=f"unsafe_after_panic@{name}:{cb}", detail=f"process_died: the workload process died (rc={p.returncode}) in or after fault case: {last}\n" + "\n".join(tail), op=last, op_index=0))
+        what = f"process_died: the workload process died (rc={p.returncode})" if p.returncode != 0 else "report_corrupted: the workload process finished but its report is not valid UTF-8 / JSON (memory corruption)"
+        deaths.append(dict(prop="C17", sig=f"unsafe_after_panic@{name}:{cb}", detail=f"{what} in or after fault case ({label}): {last}\n" + "\n".join(tail), op=last, op_index=0))
         if name in skip:
             sys.stderr.write("death repeats for a skipped op: " + last + "\n")
             sys.exit(3)
@@ -54,21 +68,45 @@ def run_phase(extra, base_skip):
     return rep, deaths, skip
 
 
-rep_a, deaths_a, skip_a = run_phase(["--only", ";".join(known_ops)], []) if known_ops else ({"violations": []}, [], [])
-rep_b, deaths_b, skip_b = run_phase([], known_ops)
+def merge(rep, other):
+    for k, v in other.items():
+        if isinstance(v, bool):
+            continue
+        if isinstance(v, (int, float)) and isinstance(rep.get(k, 0), (int, float)):
+            rep[k] = rep.get(k, 0) + v
+        elif isinstance(v, dict):
+            d = rep.setdefault(k, {})
+            if isinstance(d, dict):
+                for kk, vv in v.items():
+                    d[kk] = d.get(kk, 0) + vv if isinstance(vv, (int, float)) and isinstance(d.get(kk, 0), (int, float)) else vv
+        elif isinstance(v, list) and k.endswith("_set"):
+            rep[k] = sorted(set(rep.get(k, [])) | set(x for x in v if isinstance(x, str)))
+
+
+# phase A: every operation with a known finding in processes of its own, so that whatever its
+# undefined behaviour does (crash, garbage report) is attributed to that operation only
+viol_a, deaths_a_n = [], 0
+rep_total = None
+for op in known_ops:
+    rep_a, deaths_a, _ = run_phase(["--only", op], [o for o in known_ops if o != op], f"phase A, only {op}")
+    # the process exercised a single operation: everything it reports belongs to that operation
+    for v in deaths_a + [v for v in rep_a.get("violations", []) if isinstance(v, dict)]:
+        if isinstance(v.get("sig"), str) and v["sig"].startswith("unsafe_after_panic@") and f"@{op}:" not in v["sig"]:
+            v = dict(v, sig=re.sub(r"@.*?:", f"@{op}:", v["sig"], count=1))
+        viol_a.append(v)
+    deaths_a_n += len(deaths_a)
+    rep_a = dict(rep_a)
+    rep_a.pop("violations", None)
+    rep_a.pop("samples", None)
+    if rep_total is None:
+        rep_total = {}
+    merge(rep_total, rep_a)
+# phase B: all other operations; a death here cannot be a delayed effect of a known finding
+rep_b, deaths_b, skip_b = run_phase([], known_ops, "phase B")
 rep = dict(rep_b)
-for k, v in rep_a.items():
-    if isinstance(v, bool):
-        continue
-    if isinstance(v, (int, float)) and isinstance(rep.get(k), (int, float)):
-        rep[k] = rep[k] + v
-    elif isinstance(v, dict) and isinstance(rep.get(k), dict):
-        for kk, vv in v.items():
-            rep[k][kk] = rep[k].get(kk, 0) + vv if isinstance(vv, (int, float)) else vv
-    elif isinstance(v, list) and k.endswith("_set"):
-        rep[k] = sorted(set(rep.get(k, [])) | set(v))
-rep["violations"] = deaths_a + rep_a.get("violations", []) + deaths_b + rep_b.get("violations", [])
-rep["process_deaths"] = len(deaths_a) + len(deaths_b)
+merge(rep, rep_total or {})
+rep["violations"] = viol_a + deaths_b + rep_b.get("violations", [])
+rep["process_deaths"] = deaths_a_n + len(deaths_b)
 rep["process_deaths_outside_known_ops"] = len(deaths_b)
-rep["skipped_after_death_set"] = sorted(set(skip_a) | (set(skip_b) - set(known_ops)))
+rep["skipped_after_death_set"] = sorted(set(skip_b) - set(known_ops))
 json.dump(rep, open(out, "w"))
